@@ -1035,7 +1035,7 @@ func runC09(c *Ctx) {
 	//    goroutine left behind poisons the process, so the child stops after reporting it.
 	c09RunChildren(c, []string{"core", "config", "session-hook", "session-real", "web", "cli", "symbolize",
 		"matrix-session-0", "matrix-session-1", "matrix-session-2", "matrix-cli", "matrix-web",
-		"e2e-session", "e2e-cli", "e2e-web", "e2e-lines"})
+		"e2e-session", "e2e-cli", "e2e-web", "e2e-lines", "e2e-numeric", "e2e-paths"})
 }
 
 // c09Core runs the model-compared streams of the decision cores.
